@@ -158,6 +158,10 @@ def mkQBondList (orders : List Nat) (inRing : Option Bool := none) (stereo : Opt
 def mkQBondInt (order : Nat) (inRing : Option Bool := none) (stereo : Option Bool := none) : Except PyErr QBond :=
   if !bondOrders.contains order then .error .valueError else .ok { orders := [order], inRing, stereo }
 
+/-- `QueryBond.from_bond(bond, stereo=…, in_ring=…)` -/
+def fromBond (b : MBond) (bondStereo : Option Bool) (fStereo fRing : Bool) : QBond :=
+  { orders := [b.order], inRing := if fRing then some b.inRing else none, stereo := if fStereo then bondStereo else none }
+
 /-! ## validators (setters). `Int` inputs because the parser can produce negative numbers. -/
 
 def hasDup : List Int → Bool
@@ -192,6 +196,61 @@ def validateRingInt (v : Int) : Except PyErr (List Nat) :=
 
 def validateCharge (c : Int) : Except PyErr Int :=
   if c > chargeHi || c < chargeLo then .error .valueError else .ok c
+
+/-! ## the constructors / setters of the query API with raw arguments -/
+
+/-- an argument as the caller passes it: `None`, an `int`, or a list / tuple of ints -/
+inductive RawArg
+  | none
+  | int (v : Int)
+  | lst (l : List Int)
+  deriving Repr, DecidableEq, Inhabited
+
+/-- `_validate(value, prop)`: neighbors, heteroatoms, implicit hydrogens -/
+def validateCount : RawArg → Except PyErr (List Nat)
+  | .none => .ok []
+  | .int v => validateInt countLo countHi v
+  | .lst l => validateList countLo countHi l
+
+/-- the `hybridization` setter -/
+def validateHyb : RawArg → Except PyErr (List Nat)
+  | .none => .ok []
+  | .int v => validateInt hybLo hybHi v
+  | .lst l => validateList hybLo hybHi l
+
+/-- the `ring_sizes` setter -/
+def validateRing : RawArg → Except PyErr (List Nat)
+  | .none => .ok []
+  | .int v => validateRingInt v
+  | .lst l => validateRingList l
+
+/-- `QueryElement(isotope, charge=…, is_radical=…, neighbors=…, …)`, `AnyElement(…)`, `ListElement(elements, …)`, `AnyMetal(neighbors=…,
+    hybridization=…)` — also what assigning the properties one by one does. All failures are `ValueError`. -/
+def apiQuery (kind : QKind) (charge : Int) (radical : Bool) (nb hy rs ih he : RawArg) (stereo : Option Bool) (masked : Bool) :
+    Except PyErr QAtom :=
+  match validateCount nb with
+  | .error e => .error e
+  | .ok nb' =>
+    match validateHyb hy with
+    | .error e => .error e
+    | .ok hy' =>
+      match kind with
+      | .metal => .ok { kind := .metal, neighbors := nb', hybridization := hy', masked := masked }
+      | k =>
+        match validateCharge charge with
+        | .error e => .error e
+        | .ok ch =>
+          match validateCount he with
+          | .error e => .error e
+          | .ok he' =>
+            match validateRing rs with
+            | .error e => .error e
+            | .ok rs' =>
+              match validateCount ih with
+              | .error e => .error e
+              | .ok ih' =>
+                .ok { kind := k, charge := ch, radical := radical, neighbors := nb', hybridization := hy', ringSizes := rs',
+                      implH := ih', heteroatoms := he', stereo := stereo, masked := masked }
 
 /-! ## `QueryElement.from_atom` -/
 
